@@ -1,0 +1,17 @@
+//go:build verif
+
+package shutterservice
+
+import (
+	"github.com/shutter-network/rolling-shutter/rolling-shutter/medley/identitypreimage"
+)
+
+// Accessor for the verification harness (family gossip, property C03). Add-only: nothing here
+// changes behaviour, the file does not exist for the compiler without the verif tag. The handler
+// constructors are in zz_verif_gossipval.go (VerifGossipvalHandlers).
+
+// VerifGossipIdentitiesHash is computeIdentitiesHash (the identities_hash column of
+// decryption_signatures).
+func VerifGossipIdentitiesHash(identityPreimages []identitypreimage.IdentityPreimage) []byte {
+	return computeIdentitiesHash(identityPreimages)
+}
